@@ -1,10 +1,12 @@
 """C05 - vyukov_bounded and nikolaev_bounded queues are linearizable bounded FIFOs"""
+import re, os
 import xvlib as X
 from xvlib import log
 from props.common import *
 from props.qcommon import *
 
 HARNESSES = [('vyu', (), False, '')]
+PROPERTY_FILES = ['Properties_C05', 'Properties_C05_nikb']
 ASSUMPTIONS = [
     'SC interleavings only in this check (release/acquire hand-off of cells: C03)',
     'nikolaev_bounded_queue: concurrent linearizability is explored, not proved; fullness is relaxed by the number of threads (every other operation in progress may occupy a slot), as the property states',
@@ -17,10 +19,40 @@ def replay(sig, V, wd):
     print(out[-3000:]); print('REPLAY status=%d %s' % (st, det))
     return 1 if st != 0 else 0
 
+def classify(ctx, harness, f):
+    """pattern 'threshold-exhausted-by-delayed-poppers' (known finding): nikolaev_bounded_queue, a value accepted by a try_push is
+    not delivered (later try_pop answers 'empty') AND at least 3*capacity try_pop calls that answered 'empty' overlap that try_push in
+    the history - the delayed threshold decrements of SCQ, possible only with more concurrent poppers than the algorithm assumes"""
+    out = {'pattern': 'other'}
+    case = f.get('case', '')
+    m = re.search(r'^cfg [^\n]*q=nikb', case); mc = re.search(r'cap=(\d+)', case.split('\n')[0])
+    if not m or not mc or not ('lost' in f.get('detail', '') or 'not linearizable' in f.get('detail', '')):
+        return out
+    cap = 1
+    while cap < int(mc.group(1)): cap *= 2
+    (st, det), txt = X.replay_case(harness, case, ctx['wd'], ())
+    hist = []
+    for l in txt.splitlines():
+        mm = re.match(r'HIST T(\d+) (\w+)(?: (\S+))? -> (\S+) \[(\d+),(\d+)\]', l)
+        if mm: hist.append((mm.group(2), mm.group(4), int(mm.group(5)), int(mm.group(6))))
+    for name, res, a, b in hist:
+        if name == 'push' and res == 'ok':
+            n = sum(1 for n2, r2, a2, b2 in hist if n2 in ('pop', 'tpop') and r2 == 'empty' and a2 < b and b2 > a)
+            if n >= 3 * cap:
+                out['pattern'] = 'threshold-exhausted-by-delayed-poppers'
+    return out
+
 def run(ctx):
     rng, tier, H = ctx['rng'], ctx['tier'], ctx['H']['vyu']
     thorough = tier == 'thorough'
     run_corpus(ctx, H, 'C05')
+    # the recorded schedule of the known finding (classified like any search finding; reported again if it stops matching the pattern)
+    kf = os.path.join(X.VERIF, 'corpus', 'C05', 'nikb-threshold-delayed-poppers.known')
+    if os.path.exists(kf):
+        txt = open(kf).read()
+        (st0, det0), _ = X.replay_case(H, txt, ctx['wd'])
+        if st0 != 0:
+            report_impl(ctx, st0, det0, txt, classify(ctx, H, {'case': txt, 'detail': det0}))
     # ---- correspondence (vyukov): strong + weak mixes, capacities 2,4,8, wrap-arounds
     cases = []
     for cap in (2, 4, 8):
@@ -30,6 +62,14 @@ def run(ctx):
         cases.append((cfg, [queue_program(rng, 1, 6 * cap, ('push', 'pushw'), ('pop', 'popw'))[0]]))   # several wrap-arounds, sequential
     st = do_correspondence(ctx, 'vyu', H, cases, 10 if thorough else 5, 'vyukov')
     tie = tie_broken_sig(st, 'vyu')
+    # ---- correspondence (nikolaev_bounded_queue, Model/NikbDefs.v): capacities 1..8 (rounded up), pop_retries 0 / 2
+    ncases = [({'q': 'nikb', 'elem': 'int', 'retries': '0', 'cap': '2'}, [['push 100', 'pop'], ['push 1', 'pop', 'push 2', 'pop', 'push 3', 'pop', 'push 4'], ['pop'], ['pop', 'pop']]),
+              ({'q': 'nikb', 'elem': 'int', 'retries': '0', 'cap': '1'}, [['push 1', 'pop', 'push 7', 'pop'], ['pop'], ['pop'], ['pop']])]
+    for k in range(10 if thorough else 5):
+        cfgn = {'q': 'nikb', 'elem': 'int', 'retries': rng.choice(['0', '2']), 'cap': str(rng.choice([1, 2, 3, 4, 8]))}
+        ncases.append((cfgn, queue_program(rng, rng.choice([2, 3, 3, 4]), rng.randint(1, 6), ('push',), ('pop', 'tpop'))))
+    stn = do_correspondence(ctx, 'nikb', H, ncases, 10 if thorough else 5, 'nikolaev_bounded')
+    tie = tie or tie_broken_sig(stn, 'nikb')
     # ---- search
     jobs = []
     n = 3000 if thorough else 400
@@ -43,5 +83,7 @@ def run(ctx):
             cfg = {'q': 'nikb', 'cap': str(cap), 'elem': rng.choice(['int', 'obj']), 'retries': str(retries)}
             jobs += std_search_jobs(rng, cfg, ctx['seed'], n, thorough, lambda: queue_program(rng, 3, 3, ('push',), ('pop', 'tpop')))
             jobs.append((cfg, [queue_program(rng, 1, 6 * cap + 4, ('push',), ('pop', 'tpop'))[0]], 'opseq', 1, ctx['seed'], ()))
-    do_search(ctx, H, jobs, 'bounded-queues')
+    # more poppers than the SCQ threshold assumes (capacity 1, three poppers delayed right before their threshold decrement): known finding
+    jobs.append(({'q': 'nikb', 'cap': '1', 'elem': 'int', 'retries': '0'}, [['push 1', 'pop', 'push 7', 'pop'], ['pop'], ['pop'], ['pop']], 'pct', n, ctx['seed'], ('--depth', '4')))
+    do_search(ctx, H, jobs, 'bounded-queues', classify=classify)
     return tie
